@@ -185,3 +185,8 @@ ENTRIES += [
     {'id': 'C04/benign-interim-buffer-clear-method', 'prop': 'C04', 'kind': 'benign', 'edits': [(HC, "            del header_data[:]\n", "            header_data.clear()\n")]},
     {'id': 'C05/benign-interim-buffer-clear-method', 'prop': 'C05', 'kind': 'benign', 'edits': [(HC, "            del header_data[:]\n", "            header_data.clear()\n")]},
 ]
+
+_INT_BEGIN_EARLY = _INT_NEW.replace("        stream.data_event_dispatcher.remove_read_listener(header_callback)\n\n", "        stream.data_event_dispatcher.remove_read_listener(header_callback)\n        self.event_dispatcher.notify(self.Event.begin_response, response)\n\n")
+ENTRIES += [
+    {'id': 'C05/begin-response-before-replay', 'prop': 'C05', 'kind': 'break', 'expect': 'C05-D3', 'edits': [(HC, _INT_NEW, _INT_BEGIN_EARLY)]},
+]
